@@ -4,6 +4,7 @@ import (
 	"context"
 	"errors"
 	"fmt"
+	"os"
 	"strings"
 	"time"
 
@@ -223,6 +224,9 @@ func (c *c16sim) readBack(f *c16cache, leaderID string, leaderKey uint64, when s
 	return
 }
 
+// c16LeaderEvents: also change the leader's own cache while it serves followers (full resync, id switch).
+var c16LeaderEvents = os.Getenv("SIM_C16_LEADER_EVENTS") != "0"
+
 func runC16(r *Run, stratum string) *Violation {
 	g := r.Gen()
 	c := &c16sim{r: r, keyOf: map[string]uint64{}}
@@ -320,6 +324,7 @@ func runC16(r *Run, stratum string) *Violation {
 	}
 
 	breaks := 0
+	leaderEvent := false
 	maxBreaks := g.Choose("nbreaks", 4)
 	steps := 30 + g.Choose("steps", 120)
 	for i := 0; i < steps && r.BeginStep() && c.viol == nil; i++ {
@@ -344,6 +349,42 @@ func runC16(r *Run, stratum string) *Violation {
 		}
 		if scen != "ahead" { // in the 'ahead' scenario the leader must stay behind the follower
 			acts = append(acts, pipeAction{"grow", 3, func() { c.grow(L, 1+int64(r.Sched().Choose("grow", 400))) }})
+			if !leaderEvent && c16LeaderEvents {
+				// the leader's own source side changes WHILE followers are being served
+				acts = append(acts, pipeAction{"leader-resync", 1, func() {
+					// full resynchronisation of the leader under the same id: new snapshot at a later offset, cache reset
+					leaderEvent = true
+					sc := r.Sched()
+					r.W.Fault("leader_full_resync")
+					c.stopWriter(L)
+					off2 := L.right + int64(1+sc.Choose("resyncgap", 3000))
+					c.fill(L, true, off2, int64(20+sc.Choose("resyncsnap", 300)), int64(1+sc.Choose("resynclog", 400)))
+					r.Logf("LEADER full resync: snapshot at %d, log to %d", off2, L.right)
+				}})
+				acts = append(acts, pipeAction{"leader-idswitch", 1, func() {
+					// the leader's source failed over and answered +CONTINUE: same bytes, new replication id, old one second
+					leaderEvent = true
+					r.W.Fault("leader_id_switch")
+					newID := "3" + hexID(r.Sched().Bytes("idswitch", 20))[1:]
+					c.keyOf[newID] = 701
+					c.stopWriter(L)
+					if err := L.ch.SetRunId(newID); err != nil {
+						Inconc("leader SetRunId: %v", err)
+					}
+					old := L.id
+					L.id = newID
+					in.ids = []string{newID, old}
+					idL = newID
+					L.af = newCfeed()
+					aw, err := L.ch.NewAofWritter(L.af, L.right)
+					if err != nil {
+						Inconc("leader NewAofWritter after id switch: %v", err)
+					}
+					aw.Start()
+					L.aw = aw
+					r.Logf("LEADER id switch %s -> %s at %d", tailID(old), tailID(newID), L.right)
+				}})
+			}
 		}
 		acts = append(acts, pipeAction{"idle", 4, func() {
 			d := []time.Duration{10 * time.Millisecond, 100 * time.Millisecond, time.Second, 3100 * time.Millisecond}[r.Sched().Biased("idle", 4, 1, 2)]
